@@ -48,7 +48,7 @@ def tasks(tier, master):
 # ----------------------------------------------------------------------------
 # generation
 # ----------------------------------------------------------------------------
-SIG_FORMS = ["ndarray", "ndarray", "list", "tuple", "str", "strbits", "scalar", "npscalar"]
+SIG_FORMS = ["ndarray", "ndarray", "list", "tuple", "str", "strbits", "scalar", "npscalar", "arr_bool", "list_bool"]
 RHS_KINDS = ["obj", "obj", "obj", "pyint", "pyfloat", "pycomplex", "list", "tuple", "str", "strbits", "ndarray",
              "npscalar", "len1list", "len1arr", "badlen_list", "badlen_arr", "list2d", "arr2d"]
 RHS_REFL = ["pyint", "pyfloat", "pycomplex", "list", "tuple", "str", "len1list"]
@@ -191,6 +191,11 @@ def _form(arr, form):
         if a.ndim == 2:
             return ";".join("".join(str(int(v)) for v in r) for r in a), None
         return "".join(str(int(v)) for v in a), None
+    if form == "arr_bool":
+        a = np.asarray(arr).astype(bool)
+        return a, a
+    if form == "list_bool":
+        return np.asarray(arr).astype(bool).tolist(), None
     raise ValueError(form)
 
 
@@ -311,7 +316,7 @@ class Machine:
     def op_new(self, op):
         rs = np.random.RandomState(op["dseed"])
         cls, form, n, base = op["cls"], op["form"], op["n"], op["base"]
-        if form == "strbits":
+        if form in ("strbits", "arr_bool", "list_bool"):
             base = "int"
         layout = op.get("layout", "1d") if cls == "O" else "1d"
         n_pol = op.get("n_pol") if cls == "O" else None
@@ -320,7 +325,7 @@ class Machine:
             layout = "1d"        # a single row of text is 1-D by the parsing rule
         shape = () if scalar else (n,) if layout == "1d" else (1, n) if layout == "1xN" else (2, n)
         sig = _values(rs, shape, base)
-        if form == "strbits":
+        if form in ("strbits", "arr_bool", "list_bool"):
             sig = np.abs(sig) % 2
         noise_kind = op.get("noise")
         noise = None
@@ -345,7 +350,7 @@ class Machine:
             guards.append(g)
             narg = None
             if noise is not None:
-                nf = "str" if noise_kind == "str" else (form if form not in ("str", "strbits") else "list")
+                nf = "str" if noise_kind == "str" else (form if form not in ("str", "strbits", "arr_bool", "list_bool") else "list")
                 if nf == "str":
                     noise = _avoid_bit_text(noise)
                 narg, g2 = _form(noise, nf)
